@@ -62,6 +62,8 @@ def build(v, env, ghost_fn):
             return struct.unpack('<d', v['$float_bits'].to_bytes(8, 'little'))[0]
         if '$tuple' in v:
             return tuple(build(x, env, ghost_fn) for x in v['$tuple'])
+        if '$range' in v:
+            return range(v['$range'][0], v['$range'][1])
         if '$enum' in v:
             return getattr(_cls(v['$enum']), v['member'])
         if '$flag' in v:
@@ -131,6 +133,8 @@ def replay(doc):
                 kw[n] = args[n]
             elif extra and n in extra:
                 kw[n] = extra[n]
+            elif n == 'self':
+                kw[n] = None        # contract of a module-level function
         return fn(**kw)
 
     pre = spec('pre')
